@@ -1,19 +1,28 @@
 """C06 — computed (ancillary) features always reflect the current data and settings.
 
-A long-lived dataset is driven through seeded histories of configuration edits, temporary
-feature edits, reads, availability tests, `ds.features` and hierarchy-child refreshes.
+A long-lived hierarchy (root dataset, child, grandchild) is driven through seeded histories of
+configuration edits on the root, temporary-feature edits on any level, filter changes,
+rejuvenations, reads, availability tests and `ds.features` on any level.
 
 * property oracle (decides violations): after every read the value is compared **bit-exactly**
-  with a *fresh* dataset (same data, same edits replayed, nothing read before);
-  `feat in ds` must be true exactly when reading succeeds; `ds.features` must equal the fresh
-  dataset's list;
-* model correspondence: the abstract trace of every read (selected recipe, base/hit/miss,
-  which cache entries were written, what the hash covered) is compared with the Lean model
-  (`lean/Drive/C06.lean`) through the line protocol; recording proxies around `ds[...]`,
-  `... in ds` and the configuration sections validate the hand-written `declaredReads` /
-  `reqFuncInfo` tables of the model against what the methods really access;
-* all 64 combinations of the five `emodulus *` keys and the `temp` feature, for a known medium
-  and for "other": availability vs. reading vs. model.
+  with a hierarchy *freshly built from the current state* (same data, same state operations
+  replayed, nothing read before); `feat in ds` must be true exactly when reading succeeds;
+  `ds.features` must equal the fresh dataset's list.  A child is rejuvenated by the harness
+  before it is used when something above it changed (documented responsibility of the user);
+  `set_temporary_feature(child, …)` must leave that child up to date by itself;
+* emodulus precedence: `ds["emodulus"]` must equal `get_emodulus` called directly with the
+  inputs that the documented precedence selects **by presence of the keys** (values include
+  0.0 / -0.0 / range limits), and the recorded accesses of `compute_emodulus` to the `temp`
+  feature must match the scenario; all 64 combinations of the five `emodulus *` keys and the
+  `temp` feature are run with generic values, with zero values and for medium "other";
+* systematic "cache, edit, read" triples: every feature is read on level L, one edit is made,
+  every feature is read again (all edits x levels in the thorough tier, a stratified sample in
+  the quick tier);
+* model correspondence: the abstract trace of every read that reaches the root (selected
+  recipe, base/hit/miss, which cache entries were written, what the hash covered) is compared
+  with the Lean model (`lean/Drive/C06.lean`) through the line protocol; recording proxies
+  around `ds[...]`, `... in ds` and the configuration sections validate the hand-written
+  `declaredReads` / `reqFuncInfo` tables of the model against what the methods really access.
 """
 import hashlib
 import time
@@ -26,13 +35,19 @@ from .c06_table import translate, registry_rows  # noqa: F401  (translate is use
 ID = "C06"
 LEAN_MODULES = ["DclabModel.Properties.C06"]
 RULE = ("Histories of 5-40 operations over three dataset kinds (two-channel dict, three-channel "
-        "dict, HDF5 file with image/mask) and 4 plug-in recipes registered by the harness; "
-        "operations: set/change/delete of every [calculation] key, [imaging] pixel size/frame "
-        "rate, [setup] flow rate/channel width/chip region/medium/temperature; set/replace of "
-        "temporary features (scalar, non-scalar, ml_score); reads of 30 features; `in`; "
-        "`ds.features`; child refresh+read. A case is one history; it is non-trivial when at "
-        "least one read was served from the cache after an edit and one was recomputed. "
-        "distinct = distinct canonical histories. Plus the 128 emodulus combination cases.")
+        "dict, HDF5 file with image/mask/bg_off) with a child and a grandchild hierarchy level "
+        "and 4 plug-in recipes registered by the harness; operations (issued on any level): "
+        "set/change/delete of every [calculation] key, [imaging] pixel size/frame rate, [setup] "
+        "flow rate/channel width/chip region/medium/temperature on the root, with generic and "
+        "boundary values (0.0, -0.0, smallest/largest valid); set/replace of temporary features "
+        "(scalar, non-scalar, ml_score) on root, child or grandchild; manual-filter changes; "
+        "rejuvenate; reads of 30 features, `in`, `ds.features` on any level. Oracle: a hierarchy "
+        "freshly built from the current state; for emodulus additionally get_emodulus of the "
+        "inputs selected by the documented precedence (by key presence) and the recorded "
+        "accesses to `temp`. A case is one history; it is non-trivial when at least one read was "
+        "served from the cache after an edit and one was recomputed. distinct = distinct "
+        "canonical histories. Plus the 3x64 emodulus combination cases (generic, zero-valued, "
+        "medium 'other'), each read on the root and through a child.")
 TRUSTED_BASE = [
     "modelled, not verified: md5 and util.obj2bytes (the hash is modelled as the structured "
     "list of what is fed to md5; byte-level concatenation collisions are outside the model)",
@@ -44,8 +59,15 @@ ASSUMPTIONS = [
     "ml_score_*), never to shadow bg_off / fl?_max or an ancillary feature",
     "ml_score_* features are innate or temporary data, not themselves plug-in features",
     "datasets without basins (basins are property C07)",
-    "hierarchy children are read after rejuvenate() (documented responsibility of the user)",
-    "valid configuration values: registered LUTs, known media or 'other', known viscosity models"]
+    "a hierarchy child is rejuvenated before it is used when an ancestor's configuration, "
+    "temporary features or filter changed (documented responsibility of the user); "
+    "set_temporary_feature(child) keeps that child current by itself",
+    "non-scalar temporary features are set on the root only (set_temporary_feature through a "
+    "child builds a 1-D root array)",
+    "valid configuration values: registered LUTs, known media or 'other', known viscosity models; "
+    "value combinations that the numerical routine itself rejects (get_emodulus raises the same "
+    "exception when called directly, e.g. kestin-1978 for MC-PBS, herold-2017 at 0 degC, channel "
+    "width 0) are counted as invalid_values, not as availability failures"]
 NOT_PROVED = [
     "available_iff_runnable at full strength: false today (F07, F63: structural availability "
     "vs. raising computation); proved under the guard NoRaise and, for emodulus, for the "
@@ -63,25 +85,28 @@ READS = ["emodulus", "volume", "area_um", "area_ratio", "aspect", "deform", "tim
          "ml_class", "plug_s", "plug_t", "plug_n", "plug_e", "tmpa", "temp", "emodulus",
          "emodulus", "fl1_max_ctc", "ml_class", "area_um", "volume"]
 CFG_VALUES = {
+    # generic values and boundary values (0, -0.0, smallest / largest valid ones): presence of
+    # a key must matter, never the truthiness of its value
     ("calculation", "emodulus lut"): ["LE-2D-FEM-19", "HE-2D-FEM-22", "HE-3D-FEM-22"],
-    ("calculation", "emodulus medium"): ["CellCarrier", "CellCarrierB", "water", "other",
-                                         "other"],
-    ("calculation", "emodulus temperature"): [22.5, 23.0, 24.0],
-    ("calculation", "emodulus viscosity"): [1.0, 5.0, 7.5],
-    ("calculation", "emodulus viscosity model"): ["herold-2017", "buyukurganci-2022"],
-    ("calculation", "crosstalk fl21"): [0.0, 0.05, 0.1],
+    ("calculation", "emodulus medium"): ["CellCarrier", "CellCarrierB", "water", "water",
+                                         "other", "other"],
+    ("calculation", "emodulus temperature"): [22.5, 23.0, 0.0, -0.0, 40.0, 0.0],
+    ("calculation", "emodulus viscosity"): [1.0, 5.0, 0.0, 1e-3, 1e3],
+    ("calculation", "emodulus viscosity model"): ["herold-2017", "buyukurganci-2022",
+                                                  "buyukurganci-2022", "kestin-1978"],
+    ("calculation", "crosstalk fl21"): [0.0, 0.05, 0.1, -0.0],
     ("calculation", "crosstalk fl31"): [0.0, 0.02, 0.3],
-    ("calculation", "crosstalk fl12"): [0.0, 0.05, 0.2],
+    ("calculation", "crosstalk fl12"): [0.0, 0.05, 0.2, 1.0],
     ("calculation", "crosstalk fl32"): [0.0, 0.03, 0.1],
     ("calculation", "crosstalk fl13"): [0.0, 0.04, 0.4],
     ("calculation", "crosstalk fl23"): [0.0, 0.06, 0.1],
-    ("imaging", "pixel size"): [0.34, 0.32],
-    ("imaging", "frame rate"): [2000.0, 3000.0],
-    ("setup", "flow rate"): [0.04, 0.06],
-    ("setup", "channel width"): [20.0, 30.0],
+    ("imaging", "pixel size"): [0.34, 0.32, 0.0, 1e-3],
+    ("imaging", "frame rate"): [2000.0, 3000.0, 0.0],
+    ("setup", "flow rate"): [0.04, 0.06, 0.0, 1.2],
+    ("setup", "channel width"): [20.0, 30.0, 15.0],
     ("setup", "chip region"): ["channel", "reservoir", "channel"],
     ("setup", "medium"): ["CellCarrier", "water"],
-    ("setup", "temperature"): [22.0, 23.5],
+    ("setup", "temperature"): [22.0, 0.0],
 }
 CFG_KEYS = sorted(CFG_VALUES)
 SECTIONS = ("calculation", "imaging", "setup")
@@ -120,6 +145,8 @@ def base_features(kind, variant):
         d["mask"] = mask
         d["image"] = rs.randint(0, 255, (n,) + IMG).astype(np.uint8)
         d["image_bg"] = rs.randint(100, 140, (n,) + IMG).astype(np.uint8)
+        if variant % 2 == 1:
+            d["bg_off"] = np.linspace(-2, 2, n)
     return d
 
 
@@ -160,13 +187,12 @@ class World:
         return ds
 
 
-def temp_data(name, k):
-    """k-th version of the data of temporary feature `name`"""
-    n = NEV
+def temp_data(name, k, n=NEV):
+    """k-th version of the data of temporary feature `name` for a level with `n` events"""
     if name == "tmpn":
         return (np.arange(n * 3, dtype=float).reshape(n, 3) + k) / 4
     if name.startswith("ml_score"):
-        a = (np.arange(n) * (k + 2) * (3 if name.endswith("abc") else 5)) % 11
+        a = (np.arange(n) * (k + 2) * (3 if name.endswith("abc") else 5) + k) % 11
         return a / 10.0
     return np.linspace(1, 2, n) * (k + 1)
 
@@ -187,13 +213,19 @@ def plug_method_e(mm):
     return np.asarray(mm["emodulus"]) * 2 + np.asarray(mm["tmpa"])
 
 
+def plug_check_channel(mm):
+    """boolean requirement function (its result is not hashed)"""
+    return mm.config["setup"].get("chip region", "channel") == "channel"
+
+
 PLUGS = [
     # name, method, features required, config required, scalar, shape, outs
     ("plug_s", plug_method_st, ["tmpa", "deform"], [["setup", ["flow rate"]]], True, None,
      ["plug_s", "plug_t"]),
     ("plug_t", plug_method_st, ["tmpa", "deform"], [["setup", ["flow rate"]]], True, None,
      ["plug_s", "plug_t"]),
-    ("plug_n", plug_method_n, ["tmpn"], [["imaging", ["pixel size"]]], False, (3,), ["plug_n"]),
+    ("plug_n", plug_method_n, ["tmpn"], [["imaging", ["pixel size"]]], False, (3,), ["plug_n"],
+     plug_check_channel),
     ("plug_e", plug_method_e, ["emodulus", "tmpa"], [], True, None, ["plug_e"]),
 ]
 
@@ -211,10 +243,12 @@ class Registered:
         feat_temp.register_temporary_feature("tmpa")
         feat_temp.register_temporary_feature("tmpn", is_scalar=False)
         self.insts = []
-        for name, meth, rf, rc, scalar, shape, outs in PLUGS:
+        for name, meth, rf, rc, scalar, shape, outs, *chk in PLUGS:
             info = {"method": meth, "feature names": list(outs),
                     "features required": rf, "config required": rc,
                     "scalar feature": [scalar] * len(outs), "version": "1"}
+            if chk:
+                info["method check required"] = chk[0]
             if shape is not None:
                 info["feature shapes"] = [shape] * len(outs)
             self.insts.append(pf.PlugInFeature(name, info))
@@ -231,10 +265,11 @@ class Registered:
 
     def plugin_lines(self):
         out = []
-        for name, meth, rf, rc, scalar, shape, outs in PLUGS:
+        for name, meth, rf, rc, scalar, shape, outs, *chk in PLUGS:
             keys = [f"{s}:{k}".replace(" ", "~") for s, ks in rc for k in ks]
-            out.append("plugin %s 0 %s %s %s %s" % (
-                name, ",".join(rf) or "-", ",".join(keys) or "-", ",".join(outs), meth.__name__))
+            out.append(("plugin %s 0 %s %s %s %s %s" % (
+                name, ",".join(rf) or "-", ",".join(keys) or "-", ",".join(outs), meth.__name__,
+                "channel" if chk else "")).strip())
         return out
 
 
@@ -249,6 +284,7 @@ class Recorder:
         self.stack = []
         self.events = []          # per read: (idx, sorted outs) in completion order
         self.tokens = {}          # per read: output name -> digest token of the returned data
+        self.root_gets = []       # per read: features read from the watched (root) dataset
         self.comp_reads = {}      # idx -> (set feats, set keys)
         self.comp_outs = {}       # idx -> set of returned keys
         self.hash_reads = {}      # idx -> (set feats accessed by getitem, set keys); per read
@@ -275,7 +311,9 @@ class Recorder:
             if rec.ds is not self:
                 return o["gi"](self, feat)
             t = top()
-            if t is not None and t[0] in ("compute", "hash"):
+            if t is None:
+                rec.root_gets.append(feat)
+            elif t[0] in ("compute", "hash"):
                 t[2].add(feat)
                 t[4].add(feat)
             rec.stack.append(("ignore",))
@@ -328,7 +366,7 @@ class Recorder:
                 a = rec.comp_reads.setdefault(idx, (set(), set()))
                 a[0].update(fr[2])
                 a[1].update(fr[3])
-            rec.events.append((idx, sorted(res)))
+            rec.events.append((idx, sorted(res), set(fr[2]), set(fr[4]), set(fr[3])))
             for k in res:
                 rec.tokens[k] = "c" + hashlib.md5(repr(canon(res[k])).encode()).hexdigest()[:10]
             rec.comp_outs.setdefault(idx, set()).update(res)
@@ -377,6 +415,7 @@ class Recorder:
         self.events = []
         self.tokens = {}
         self.hash_reads = {}
+        self.root_gets = []
 
     def end(self):
         self.ds = None
@@ -421,31 +460,102 @@ def safe(fn):
         return ("exc", type(e).__name__)
 
 
-def apply_edit(ds, op, reg):
-    """configuration / temporary-feature edits (never reads a feature)"""
-    if op[0] == "setc":
-        ds.config[op[1]][op[2]] = op[3]
-    elif op[0] == "delc":
-        ds.config[op[1]].pop(op[2], None)
-    elif op[0] == "sett":
-        reg.ft.set_temporary_feature(ds, op[1], temp_data(op[1], op[2]))
-    elif op[0] == "child":
-        m = np.ones(NEV, dtype=bool)
-        m[op[2]] = False
-        ds.filter.manual[:] = m
-        ds.apply_filter()
+NLEV = 3          # root, child, grandchild
 
 
-def is_edit(op):
-    return op[0] in ("setc", "delc", "sett")
+def norm(op):
+    """operations carry the hierarchy level they are issued on (0 = root); older replay
+    files do not"""
+    op = tuple(op)
+    if op[0] == "sett" and len(op) == 3:
+        return op + (0,)
+    if op[0] in ("read", "in") and len(op) == 2:
+        return op + (0,)
+    if op[0] == "feats" and len(op) == 1:
+        return op + (0,)
+    if op[0] == "child":                      # old format: filter the root, read via the child
+        return ("read", op[1], 1)
+    return op
 
 
-def fresh_dataset(world, ops, reg):
-    ds = world.open()
-    for op in ops:
-        if is_edit(op):
-            apply_edit(ds, op, reg)
-    return ds
+def is_state_op(op):
+    return op[0] in ("setc", "delc", "sett", "filt")
+
+
+class Hier:
+    """root dataset with lazily created child and grandchild, operated according to the
+    documented protocol: a child is rejuvenated before it is used when something above it
+    changed (`dirty`); `set_temporary_feature(child)` rejuvenates that child itself"""
+
+    def __init__(self, world, reg):
+        self.world, self.reg = world, reg
+        self.levels = [world.open()]
+        self.dirty = [False] * NLEV
+
+    @property
+    def root(self):
+        return self.levels[0]
+
+    def level(self, lev):
+        dclab = common.import_dclab()
+        while len(self.levels) <= lev:
+            self.levels.append(dclab.new_dataset(self.levels[-1]))   # refreshes all ancestors
+            for i in range(len(self.levels)):
+                self.dirty[i] = False
+        return self.levels[lev]
+
+    def ensure(self, lev):
+        lv = self.level(lev)
+        if lev > 0 and any(self.dirty[1:lev + 1]):
+            lv.rejuvenate()
+            for i in range(1, lev + 1):
+                self.dirty[i] = False
+        return lv
+
+    def mark(self, from_level):
+        for i in range(max(from_level, 1), NLEV):
+            self.dirty[i] = True
+
+    def apply(self, op):
+        """state operations (never read an ancillary feature)"""
+        if op[0] == "setc":
+            self.root.config[op[1]][op[2]] = op[3]
+            self.mark(1)
+        elif op[0] == "delc":
+            self.root.config[op[1]].pop(op[2], None)
+            self.mark(1)
+        elif op[0] == "sett":
+            lev = op[3]
+            lv = self.ensure(lev)
+            self.reg.ft.set_temporary_feature(lv, op[1], temp_data(op[1], op[2], len(lv)))
+            self.mark(lev + 1)
+        elif op[0] == "filt":
+            lev = op[1]
+            lv = self.ensure(lev)
+            m = np.ones(len(lv), dtype=bool)
+            if len(lv):
+                m[op[2] % len(lv)] = False
+            lv.filter.manual[:] = m
+            lv.apply_filter()
+            self.mark(lev + 1)
+        elif op[0] == "rejuv":
+            self.level(op[1]).rejuvenate()
+            for i in range(1, op[1] + 1):
+                self.dirty[i] = False
+
+    def replay(self, ops):
+        for op in ops:
+            if is_state_op(op):
+                self.apply(op)
+        return self
+
+    def close(self):
+        for d in reversed(self.levels):
+            try:
+                if hasattr(d, "close"):
+                    d.close()
+            except Exception:
+                pass
 
 
 def known_class(ds, feat, exc):
@@ -460,6 +570,49 @@ def known_class(ds, feat, exc):
         if all(f"fl{i}_max" in ds for i in (1, 2, 3)):
             return "F63"
     return None
+
+
+def emod_scenario(ds):
+    """the documented precedence, decided by PRESENCE of keys / of the `temp` feature:
+    'B' viscosity given for medium other/absent; 'C' known medium and temperature key;
+    'A' known medium and `temp` feature; None: unavailable or contradictory (F07)"""
+    cc = ds.config["calculation"]
+    if "emodulus lut" not in cc:
+        return None
+    other = str(cc.get("emodulus medium", "other")).lower() == "other"
+    visc = "emodulus viscosity" in cc
+    if visc and other:
+        return "B"
+    if not other and not visc:
+        if "emodulus temperature" in cc:
+            return "C"
+        if "temp" in ds._events or "temp" in ds._usertemp:
+            return "A"
+    return None
+
+
+def emod_oracle(ds):
+    """`get_emodulus` called directly with the inputs the documented precedence selects
+    (independent of `compute_emodulus`); None when no scenario applies"""
+    from dclab.features.emodulus import get_emodulus
+    scen = emod_scenario(ds)
+    if scen is None:
+        return None
+    cc = ds.config["calculation"]
+
+    def call():
+        kw = dict(area_um=ds["area_um"], deform=ds["deform"], lut_data=cc["emodulus lut"],
+                  channel_width=ds.config["setup"]["channel width"],
+                  flow_rate=ds.config["setup"]["flow rate"],
+                  px_um=ds.config["imaging"]["pixel size"])
+        if scen == "B":
+            kw.update(medium=cc["emodulus viscosity"], temperature=None, visc_model=None)
+        else:
+            kw.update(medium=cc["emodulus medium"],
+                      temperature=(cc["emodulus temperature"] if scen == "C" else ds["temp"]),
+                      visc_model=cc.get("emodulus viscosity model", "herold-2017"))
+        return get_emodulus(**kw)
+    return scen, outcome(call)
 
 
 #: minimised past failures ("cache, edit, read"), replayed first on every run
@@ -492,14 +645,17 @@ CORPUS = [
 
 
 class Runner:
-    """runs one history on a long-lived dataset, judging every step with the property's own
-    oracle; optionally emits the model lines"""
+    """runs one history on a long-lived hierarchy (root, child, grandchild), judging every step
+    with the property's own oracle — a hierarchy freshly built from the current state —;
+    optionally emits the model lines"""
 
-    def __init__(self, ctx, world, reg, emit=True, record=True):
+    def __init__(self, ctx, world, reg, emit=True, record=True, share_fresh=False):
         self.ctx, self.world, self.reg = ctx, world, reg
         self.emit, self.record = emit, record
-        self.ds = world.open()
-        self.child = None
+        self.share_fresh = share_fresh      # one fresh hierarchy per run of reads (triples part)
+        self._fresh = None
+        self.h = Hier(world, reg)
+        self.ds = self.h.root
         self.done = []
         self.lines, self.expect = [], []
         self.failures = []       # (class, description)
@@ -538,8 +694,10 @@ class Runner:
                                                  self.tok(op[1], op[2], v)))
         elif op[0] == "delc":
             self.lines.append("delc %s:%s" % (op[1], op[2].replace(" ", "~")))
+        elif op[0] == "sett":       # the data as they arrive at the root
+            self.lines.append("sett %s %s" % (op[1], self.dtok(self.ds._usertemp[op[1]])))
         else:
-            self.lines.append("sett %s %s" % (op[1], self.dtok(temp_data(op[1], op[2]))))
+            return
         self.expect.append(None)
 
     # -- one step --------------------------------------------------------------------
@@ -547,6 +705,7 @@ class Runner:
         self.failures.append((cls, what))
 
     def step(self, op):
+        op = norm(op)
         try:
             self._step(op)
         except (KeyboardInterrupt, SystemExit):
@@ -555,40 +714,54 @@ class Runner:
             self.fail("exception", f"operation '{op[0]} {op[1] if len(op) > 1 else ''}' makes "
                                    f"dclab raise {type(e).__name__} outside of a feature read")
 
+    def fresh(self, lev):
+        """hierarchy freshly built from the current state (same state operations, no reads)"""
+        if self.share_fresh:
+            if self._fresh is None:
+                self._fresh = _Shared(self.world, self.reg).replay(self.done)
+            return self._fresh, self._fresh.ensure(lev)
+        fh = Hier(self.world, self.reg).replay(self.done)
+        return fh, fh.ensure(lev)
+
     def _step(self, op):
-        ds = self.ds
-        if is_edit(op):
-            apply_edit(ds, op, self.reg)
+        if is_state_op(op) or op[0] == "rejuv":
+            if self._fresh is not None and is_state_op(op):
+                self._fresh.really_close()
+                self._fresh = None
+            self.h.apply(op)
             self.done.append(op)
-            self.edited_since = True
+            if op[0] != "rejuv":
+                self.edited_since = True
             if self.emit:
                 self._emit_edit(op)
             return
         self.done.append(op)
         if op[0] == "in":
-            self._check_in(op[1])
+            self._check_in(op[1], op[2])
         elif op[0] == "feats":
-            self._check_feats()
+            self._check_feats(op[1])
         elif op[0] == "read":
-            self._check_read(op[1])
-        elif op[0] == "child":
-            self._check_child(op)
+            self._check_read(op[1], op[2])
 
-    def _check_in(self, feat):
-        got = safe(lambda: feat in self.ds)
-        fr = fresh_dataset(self.world, self.done, self.reg)
-        want = safe(lambda: feat in fr)
+    def _check_in(self, feat, lev):
+        lv = self.h.ensure(lev)
+        got = safe(lambda: feat in lv)
+        fh, fl = self.fresh(lev)
+        want = safe(lambda: feat in fl)
+        fh.close()
         if got != want:
-            self.fail("in-vs-fresh", f"'{feat}' in ds is {got[1]} on the long-lived dataset, "
-                                     f"{want[1]} on a fresh one")
+            self.fail("in-vs-fresh", f"'{feat}' in ds (level {lev}) is {got[1]} on the "
+                                     f"long-lived dataset, {want[1]} on a fresh one")
         if self.emit:
             self.lines.append(f"in {feat}")
             self.expect.append(("in", got))
 
-    def _check_feats(self):
-        got = safe(lambda: tuple(self.ds.features))
-        fr = fresh_dataset(self.world, self.done, self.reg)
-        want = safe(lambda: tuple(fr.features))
+    def _check_feats(self, lev):
+        lv = self.h.ensure(lev)
+        got = safe(lambda: tuple(lv.features))
+        fh, fl = self.fresh(lev)
+        want = safe(lambda: tuple(fl.features))
+        fh.close()
         if got != want:
             delta = (sorted(set(got[1]) ^ set(want[1]))
                      if got[0] == want[0] == "ok" else (got, want))
@@ -598,10 +771,11 @@ class Runner:
             self.lines.append("feats")
             self.expect.append(("feats", got[1] if got[0] == "ok" else None))
 
-    def _check_read(self, feat):
+    def _check_read(self, feat, lev):
         ds = self.ds
         from dclab.rtdc_dataset.feat_anc_core import AncillaryFeature
-        avail = safe(lambda: feat in ds)
+        lv = self.h.ensure(lev)
+        avail = safe(lambda: feat in lv)
         is_base = feat in ds._events or feat in ds._usertemp
         sel = None
         if not is_base:
@@ -613,33 +787,66 @@ class Runner:
         if self.record:
             REC.begin(ds)
         try:
-            got = outcome(lambda: ds[feat])
+            got = outcome(lambda: lv[feat])
         finally:
             events = list(REC.events)
             hreads = dict(REC.hash_reads)
             hints = ",".join(f"{k}={v}" for k, v in sorted(REC.tokens.items()))
+            root_read = feat in REC.root_gets
             REC.end()
-        fr = fresh_dataset(self.world, self.done, self.reg)
-        want = outcome(lambda: fr[feat])
+        fh, fl = self.fresh(lev)
+        want = outcome(lambda: fl[feat])
         self.ctx.stat("reads")
+        self.ctx.stat(f"reads_level{lev}")
+        where = "" if lev == 0 else f" (hierarchy level {lev})"
         # (1) the property's oracle: long-lived == fresh
         if got != want:
-            self.fail("stale", f"ds['{feat}'] on the long-lived dataset differs from a fresh "
-                               f"dataset with the same data and configuration "
+            self.fail("stale", f"ds['{feat}']{where} on the long-lived dataset differs from a "
+                               f"fresh dataset with the same data and configuration "
                                f"({got[0]}/{want[0]}; {got[1] if got[0] == 'exc' else ''})")
-        # (2) availability
+        # (2) the documented emodulus precedence decides which inputs are used
+        excused = False
+        if feat in ("emodulus", "plug_e"):
+            scen = safe(lambda: emod_scenario(fh.root))
+            scen = scen[1] if scen[0] == "ok" else None
+            # the independent numerical oracle is expensive (Delaunay of the LUT): only where
+            # it decides something
+            need = (feat == "emodulus" and lev == 0 and got[0] == "ok") or (
+                got[0] == "exc" and avail[1] is True and not known_class(ds, feat, got[1]))
+            orc = safe(lambda: emod_oracle(fh.root)) if (scen and need) else ("ok", None)
+            orc = orc[1] if orc[0] == "ok" else None
+            if scen is not None:
+                oval = orc[1] if orc is not None else ("none",)
+                self.ctx.stat("emodulus_scenario:" + scen)
+                if orc is not None and feat == "emodulus" and lev == 0 and got[0] == "ok" \
+                        and got != oval:
+                    self.fail("precedence", "ds['emodulus'] is not get_emodulus(...) of the "
+                              f"inputs that the documented precedence selects (scenario {scen} "
+                              f"by presence of keys; oracle {oval[0]})")
+                if got[0] == "exc" and oval[0] == "exc" and oval[1] == got[1]:
+                    excused = True       # values outside the domain of the numerical routine
+                    self.ctx.stat("invalid_values:" + got[1])
+                for ev in events:
+                    if AncillaryFeature.features[ev[0]].feature_name != "emodulus":
+                        continue
+                    if ("temp" in ev[2]) != (scen == "A") or ("temp" in ev[3]) != (scen == "A"):
+                        self.fail("precedence-inputs", "compute of 'emodulus' accessed the "
+                                  f"`temp` feature: {'temp' in ev[2]} although the documented "
+                                  f"precedence selects scenario {scen}")
+        fh.close()
+        # (3) availability
         if avail[1] is True and got[0] == "exc":
             kc = known_class(ds, feat, got[1])
             if kc:
                 self.known[kc] = (feat, got[1])
                 self.ctx.stat("known:" + kc)
-            else:
+            elif not excused:
                 self.fail("available-but-unreadable",
-                          f"'{feat}' in ds is True but ds['{feat}'] raises {got[1]}")
+                          f"'{feat}' in ds is True but ds['{feat}'] raises {got[1]}{where}")
         elif avail[1] is False and got[0] == "ok":
             self.fail("readable-but-unavailable",
-                      f"'{feat}' in ds is False but ds['{feat}'] succeeds")
-        fired = sorted(k for _, outs in events for k in outs)
+                      f"'{feat}' in ds is False but ds['{feat}'] succeeds{where}")
+        fired = sorted(k for ev in events for k in ev[1])
         if is_base:
             kind = "base"
         elif got[0] == "ok":
@@ -650,58 +857,51 @@ class Runner:
             self.nhit += 1 if self.edited_since else 0
         if kind == "miss":
             self.nmiss += 1
-        self.ctx.stat("kind:" + kind)
-        if self.emit:
+        if lev == 0:
+            self.ctx.stat("kind:" + kind)
+        if self.emit and (lev == 0 or root_read or not self.record):
+            # (a child read reaches the root only if the child has not cached the feature)
             self.lines.append(f"read {feat} {hints}".strip())
-            cover = hreads.get(sel) if (sel is not None and got[0] == "ok") else None
-            self.expect.append(("read", got[0] == "ok", avail[1] is True, sel, kind, fired,
-                                cover))
-
-    def _check_child(self, op):
-        feat = op[1]
-        dclab = common.import_dclab()
-        def rd(child, parent):
-            apply_edit(parent, op, self.reg)
-            child.rejuvenate()
-            return np.array(child[feat][:]) if feat in child else None
-
-        def rd_long():
-            if self.child is None:
-                self.child = dclab.new_dataset(self.ds)
-            return rd(self.child, self.ds)
-
-        if self.record:
-            REC.begin(self.ds)
-        try:
-            got = outcome(rd_long)
-        finally:
-            hints = ",".join(f"{k}={v}" for k, v in sorted(REC.tokens.items()))
-            REC.end()
-        fr = fresh_dataset(self.world, self.done, self.reg)
-        want = outcome(lambda: rd(dclab.new_dataset(fr), fr))
-        self.ctx.stat("child_reads")
-        if got != want:
-            self.fail("stale-child", f"child['{feat}'] after rejuvenate differs from a fresh "
-                                     f"hierarchy ({got[0]}/{want[0]})")
-        if self.emit:                       # the parent's caches evolve as for a read
-            self.lines.append(f"read {feat} {hints}".strip())
-            self.expect.append(("childread", got[0] == "ok" and got[1][0] == "arr"))
+            if excused:       # the model's symbolic methods do not know invalid values
+                self.expect.append(("skip",))
+            elif lev == 0:
+                cover = hreads.get(sel) if (sel is not None and got[0] == "ok") else None
+                self.expect.append(("read", got[0] == "ok", avail[1] is True, sel, kind, fired,
+                                    cover))
+            else:       # the root's caches evolve as for a read
+                self.expect.append(("childread", got[0] == "ok"))
 
     def close(self):
-        for d in (self.child, self.ds):
-            try:
-                if d is not None and hasattr(d, "close"):
-                    d.close()
-            except Exception:
-                pass
+        if self._fresh is not None:
+            self._fresh.really_close()
+        self.h.close()
+
+
+class _Shared(Hier):
+    """fresh hierarchy that is kept until the next state operation"""
+
+    def close(self):
+        pass
+
+    def really_close(self):
+        Hier.close(self)
 
 
 def gen_history(rng, world):
     n = rng.randint(5, 40)
     ops = []
-    focus = rng.choice(["emod", "emod", "ctc", "mixed", "mixed", "temp",
+    focus = rng.choice(["emod", "emod", "ctc", "mixed", "mixed", "temp", "temp",
                         "image" if world.kind == "h5" else "mixed"])
     ck = [k for k in CFG_KEYS if "crosstalk" in k[1]]
+
+    home = rng.choice([0, 0, 1, 1, 2])      # most operations of a history act on one level
+
+    def lvl():
+        x = rng.random()
+        if x < 0.65:
+            return home
+        return 0 if x < 0.82 else (1 if x < 0.93 else 2)
+
     if focus in ("emod", "temp") or rng.random() < 0.5:   # a plausible emodulus configuration
         scen = rng.choice(["C", "C", "B", "A", "rand"])
         ks = {"C": ["emodulus lut", "emodulus medium", "emodulus temperature"],
@@ -713,7 +913,7 @@ def gen_history(rng, world):
         for k in ks:
             v = rng.choice(CFG_VALUES[("calculation", k)])
             if k == "emodulus medium" and scen in ("C", "A") and rng.random() < 0.8:
-                v = rng.choice(["CellCarrier", "CellCarrierB", "water"])
+                v = rng.choice(["CellCarrier", "CellCarrierB", "water", "water"])
             ops.append(("setc", "calculation", k, v))
         if scen == "B" and rng.random() < 0.6:
             ops.append(("setc", "calculation", "emodulus medium", "other"))
@@ -722,9 +922,10 @@ def gen_history(rng, world):
         pair = [k for k in ck if k[1] in ("crosstalk fl21", "crosstalk fl12")]
         for k in (ck if full else pair + rng.sample(ck, rng.randint(0, 2))):
             ops.append(("setc",) + k + (rng.choice(CFG_VALUES[k]),))
+    tver = {f: 0 for f in TEMP_NAMES}
     if focus == "temp" or rng.random() < 0.3:
         for f in rng.sample(TEMP_NAMES, rng.randint(1, 4)):
-            ops.append(("sett", f, 0))
+            ops.append(("sett", f, 0, 0 if f == "tmpn" else lvl()))
     keys = CFG_KEYS
     if focus == "emod":
         keys = [k for k in CFG_KEYS if "crosstalk" not in k[1]]
@@ -745,33 +946,40 @@ def gen_history(rng, world):
     elif focus == "image":
         reads = [r for r in READS if r.startswith(("bright", "inert", "tilt", "contour",
                                                    "volume", "area"))]
-    tver = {f: 0 for f in TEMP_NAMES}
     n = max(n, len(ops) + 3)
     while len(ops) < n:
+        # the idiom the property is about: cache, edit, read again (same level)
+        if ops and ops[-1][0] in ("setc", "delc", "sett", "filt") and rng.random() < 0.4:
+            before = [o for o in ops if o[0] == "read"]
+            if before:
+                ops.append(rng.choice(before[-6:]))
+                continue
         x = rng.random()
-        if x < 0.27:
+        if x < 0.25:
             k = rng.choice(keys)
             ops.append(("setc",) + k + (rng.choice(CFG_VALUES[k]),))
-        elif x < 0.33:
+        elif x < 0.31:
             ops.append(("delc",) + rng.choice(keys))
         elif x < 0.44:
             f = rng.choice(TEMP_NAMES)
             tver[f] = tver[f] + 1 if rng.random() < 0.7 else rng.randint(0, 2)
-            ops.append(("sett", f, tver[f]))
-        elif x < 0.82:
-            ops.append(("read", rng.choice(reads if rng.random() < 0.85 else general)))
-        elif x < 0.90:
-            ops.append(("in", rng.choice(reads)))
-        elif x < 0.94:
-            ops.append(("feats",))
+            ops.append(("sett", f, tver[f], 0 if f == "tmpn" else lvl()))
+        elif x < 0.80:
+            f = rng.choice(reads if rng.random() < 0.85 else general)
+            ops.append(("read", f, 0 if f == "contour" else lvl()))
+        elif x < 0.88:
+            ops.append(("in", rng.choice(reads), lvl()))
+        elif x < 0.91:
+            ops.append(("feats", lvl()))
+        elif x < 0.96:
+            ops.append(("filt", rng.choice([0, 0, 1]), rng.randrange(NEV)))
         else:
-            ops.append(("child", rng.choice(reads[:4] + ["area_um", "deform"]),
-                        rng.randrange(NEV)))
+            ops.append(("rejuv", rng.choice([1, 2])))
     return ops[:40]
 
 
-def run_history(ctx, world, reg, ops, emit=True, record=True):
-    r = Runner(ctx, world, reg, emit=emit, record=record)
+def run_history(ctx, world, reg, ops, emit=True, record=True, share_fresh=False):
+    r = Runner(ctx, world, reg, emit=emit, record=record, share_fresh=share_fresh)
     try:
         for op in ops:
             r.step(op)
@@ -782,13 +990,17 @@ def run_history(ctx, world, reg, ops, emit=True, record=True):
 
 def shrink(ctx, world, reg, ops, cls):
     """minimal history that still shows a failure of class `cls` (cache, edit, read)"""
+    deadline = ctx.t0 + (128 if ctx.tier == "quick" else 870)
+
     def fails(seq):
+        if time.time() > deadline:
+            return False
         try:
-            r = run_history(ctx, world, reg, seq, emit=False, record=False)
+            r = run_history(ctx, world, reg, seq, emit=False, record=cls.startswith("prec"))
         except Exception:  # noqa
             return False
         return any(c == cls for c, _ in r.failures)
-    return common.ddmin(ops, fails, max_tests=150)
+    return common.ddmin(ops, fails, max_tests=120)
 
 
 def fmt_ops(ops):
@@ -796,35 +1008,73 @@ def fmt_ops(ops):
 
 
 # ----------------------------------------------------------------------------------------
+COMBO_VALUES = {
+    # generic values, boundary values (zero temperature / viscosity), medium "other"
+    "generic": {"emodulus medium": "CellCarrier", "emodulus lut": "LE-2D-FEM-19",
+                "emodulus temperature": 23.0, "emodulus viscosity": 5.0,
+                "emodulus viscosity model": "buyukurganci-2022"},
+    "zero": {"emodulus medium": "water", "emodulus lut": "LE-2D-FEM-19",
+             "emodulus temperature": 0.0, "emodulus viscosity": 0.0,
+             "emodulus viscosity model": "kestin-1978"},
+    "other": {"emodulus medium": "other", "emodulus lut": "HE-2D-FEM-22",
+              "emodulus temperature": -0.0, "emodulus viscosity": 0.0,
+              "emodulus viscosity model": "buyukurganci-2022"},
+}
+
+
 def combos_part(ctx, reg, lines, expect):
-    """all 64 combinations of the five emodulus keys x `temp`, known medium and 'other'"""
-    vals = {"emodulus lut": "LE-2D-FEM-19", "emodulus temperature": 23.0,
-            "emodulus viscosity": 5.0, "emodulus viscosity model": "buyukurganci-2022"}
-    for medium in ("CellCarrier", "other"):
+    """all 64 combinations of the five emodulus keys x `temp`, with generic values, with
+    boundary values (0.0) and for medium 'other'; read on the root and through a child"""
+    for vname, vals in COMBO_VALUES.items():
         for bits in range(64):
             present = {k: bool(bits >> i & 1) for i, k in enumerate(EMOD_KEYS)}
             with_temp = bool(bits >> 5 & 1)
             world = World(ctx, "dict2", 0 if with_temp else 1)
-            ops = []
-            for k in EMOD_KEYS:
-                if present[k]:
-                    ops.append(("setc", "calculation", k,
-                                medium if k == "emodulus medium" else vals[k]))
-            ops += [("in", "emodulus"), ("read", "emodulus")]
+            ops = [("setc", "calculation", k, vals[k]) for k in EMOD_KEYS if present[k]]
+            ops += [("read", "emodulus", 0)]
+            if vname == "generic":
+                ops += [("read", "emodulus", 1)]
             r = run_history(ctx, world, reg, ops)
             lines += r.lines
             expect += r.expect
-            ctx.case(("combo", medium, bits), nontrivial=True)
+            ctx.case(("combo", vname, bits), nontrivial=True)
             ctx.stat("combo:" + ("fails" if r.known else "ok"))
             for k, v in r.known.items():
                 ctx.stat("combo-known:" + k)
             for cls, what in r.failures:
-                ctx.violation("spec", f"emodulus combination {present} temp={with_temp} "
-                                      f"medium={medium}: {what}",
+                ctx.violation("spec", f"emodulus combination {vname} "
+                                      f"{[k for k in EMOD_KEYS if present[k]]} temp={with_temp}: "
+                                      f"{what}",
                               {"part": "combos", "kind": "dict2", "variant": world.variant,
                                "ops": fmt_ops(ops), "class": cls})
             if r.known:
-                yield medium, bits, r.known
+                yield vname, bits, r.known
+
+
+def triples(world):
+    """systematic 'cache, edit, read' histories: every feature is read on level L, ONE edit is
+    made (a config key set to another value or deleted on the root; a temporary feature
+    replaced through level L), every feature is read on level L again"""
+    pre = [("setc", "calculation", "emodulus lut", "LE-2D-FEM-19"),
+           ("setc", "calculation", "emodulus medium", "CellCarrier"),
+           ("setc", "calculation", "emodulus temperature", 23.0),
+           ("setc", "calculation", "emodulus viscosity model", "buyukurganci-2022"),
+           ("setc", "setup", "chip region", "channel")]
+    pre += [("setc",) + k + (CFG_VALUES[k][1],) for k in CFG_KEYS if "crosstalk" in k[1]]
+    feats = sorted(set(r for r in READS if world.kind == "h5" or not r.startswith(
+        ("bright", "inert", "tilt", "contour", "volume"))))
+    out = []
+    for lev in range(NLEV):
+        temps = [("sett", f, 0, 0 if f == "tmpn" else lev) for f in TEMP_NAMES]
+        reads = [("read", f, 0 if f == "contour" else lev) for f in feats]
+        edits = [("sett", f, 1, 0 if f == "tmpn" else lev) for f in TEMP_NAMES]
+        edits += [("filt", min(lev, 1), 3)]
+        for k in CFG_KEYS:
+            edits.append(("setc",) + k + (CFG_VALUES[k][2 % len(CFG_VALUES[k])],))
+            edits.append(("delc",) + k)
+        for e in edits:
+            out.append((lev, e, pre + temps + reads + [e] + reads))
+    return out
 
 
 def run(ctx):
@@ -841,9 +1091,10 @@ def run(ctx):
             # recorded witnesses of the open findings first
             f07 = [(m, b) for m, b, k in combos_part(ctx, reg, lines, expect) if "F07" in k]
             if f07:
-                known["F07"] = (f"{len([1 for m, _ in f07 if m != 'other'])} of 64 key "
+                known["F07"] = (f"{len([1 for m, _ in f07 if m == 'generic'])} of 64 key "
                                 "combinations (known medium and 'emodulus viscosity' both set): "
                                 "'emodulus' in ds is True but ds['emodulus'] raises ValueError")
+            ctx.stat("seconds_combos", round(time.time() - t_start))
             w3 = World(ctx, "dict3", 0)
             r = run_history(ctx, w3, reg, [
                 ("setc", "calculation", "crosstalk fl21", 0.1),
@@ -871,10 +1122,47 @@ def run(ctx):
                                    "ops": fmt_ops(ops)})
                     corpus_failed.add(r.failures[0][0] if fid != "F62" else "avail")
 
-            nhist = ctx.n(240, 2400)
+            # systematic cache-edit-read triples on every hierarchy level (a seeded sample in
+            # the quick tier, all of them in the thorough tier)
+            allt = []
+            for kind, variant in (("dict2", 0), ("h5", 1)):
+                w = World(ctx, kind, variant)
+                allt += [(w,) + t for t in triples(w)]
+            if not ctx.thorough:
+                # every replacement of a temporary feature through a child level of one world,
+                # plus a seeded sample of the other edits
+                wpick = ctx.rng.choice(["dict2", "h5"])
+                strat = [t for t in allt if t[2][0] == "sett" and t[1] > 0 and t[2][1] != "tmpn"
+                         and t[0].kind == wpick]
+                rest = [t for t in allt if t not in strat]
+                allt = strat + ctx.rng.sample(rest, min(len(rest), ctx.n(4, 0)))
+            for w, lev, e, ops in allt:
+                if time.time() - t_start > (75 if ctx.tier == "quick" else 500):
+                    break
+                r = run_history(ctx, w, reg, ops, emit=False, record=False, share_fresh=True)
+                ctx.case(("triple", w.kind, lev, e), nontrivial=True)
+                ctx.stat("triples")
+                for k, v in r.known.items():
+                    known.setdefault(k, f"'{v[0]}' in ds is True but reading raises {v[1]}")
+                for cls in sorted({c for c, _ in r.failures}):
+                    what = [x for c, x in r.failures if c == cls][0]
+                    key = (cls, what.split("'")[1] if "'" in what else "")
+                    if key in seen_classes or len(seen_classes) >= 12:
+                        continue
+                    small = shrink(ctx, w, reg, ops, cls)
+                    r2 = run_history(ctx, w, reg, small, emit=False,
+                                     record=cls.startswith("prec"))
+                    w2 = [x for c, x in r2.failures if c == cls]
+                    seen_classes[key] = (
+                        (w2[0] if w2 else what) + f" — minimal history of {len(small)} operations",
+                        {"part": "triples", "kind": w.kind, "variant": w.variant,
+                         "class": cls, "ops": fmt_ops(small)})
+
+            ctx.stat("seconds_before_histories", round(time.time() - t_start))
+            nhist = ctx.n(200, 2000)
             worlds = {}
             for h in range(nhist):
-                if time.time() - t_start > (100 if ctx.tier == "quick" else 780):
+                if time.time() - t_start > (100 if ctx.tier == "quick" else 690):
                     ctx.note(f"C06: time budget reached after {h} histories")
                     break
                 if search and h >= 60 and sum(1 for k in seen_classes if k[0] == "stale") >= 3:
@@ -903,15 +1191,15 @@ def run(ctx):
                     if key in seen_classes or len(seen_classes) >= 12:
                         continue
                     small = shrink(ctx, world, reg, ops, cls)
-                    r2 = run_history(ctx, world, reg, small, emit=False, record=False)
+                    r2 = run_history(ctx, world, reg, small, emit=False,
+                                     record=cls.startswith("prec"))
                     w2 = [w for c, w in r2.failures if c == cls]
                     seen_classes[key] = (
                         (w2[0] if w2 else what) + f" — minimal history of {len(small)} operations",
                         {"part": "history", "kind": kind, "variant": variant,
                          "class": cls, "ops": fmt_ops(small)})
             # stale values first (one per feature), then one representative per other class
-            order = sorted(seen_classes, key=lambda k: (k[0] != "stale", k[0] != "stale-child",
-                                                        k))
+            order = sorted(seen_classes, key=lambda k: (k[0] != "stale", k))
             shown = set()
             for key in order:
                 if key[0] != "stale" and key[0] in shown:
@@ -929,13 +1217,13 @@ def run(ctx):
             return
         if diffs or bad_reads:
             # only the mirror differs: extended failing-input search on the implementation
-            budget = 115 if ctx.tier == "quick" else 850
+            budget = 118 if ctx.tier == "quick" else 850
             h = 0
             while time.time() - ctx.t0 < budget and h < 10 * nhist:
                 h += 1
                 kind = ctx.rng.choice(["dict2", "dict3", "h5"])
                 variant = ctx.rng.randrange(4)
-                world = worlds.setdefault((kind, variant), None) or World(ctx, kind, variant)
+                world = worlds.get((kind, variant)) or World(ctx, kind, variant)
                 worlds[(kind, variant)] = world
                 ops = gen_history(ctx.rng, world)
                 r = run_history(ctx, world, reg, ops, emit=False, record=False)
@@ -986,8 +1274,10 @@ def compare_model(ctx, lines, expect, ncore):
         elif ex[0] == "feats":
             if ex[1] is not None and sorted(set(got.split(","))) != sorted(set(ex[1])):
                 diffs.append((ln, ",".join(ex[1]), got))
+        elif ex[0] == "skip":
+            continue
         elif ex[0] == "childread":
-            if (got.split()[0] == "some") != ex[1]:
+            if ex[1] and got.split()[0] != "some":
                 diffs.append((ln, ex[1], got))
         elif ex[0] == "read":
             _, ok, av, sel, kind, fired, cover = ex
